@@ -16,6 +16,9 @@ SCR = os.path.join(BUILD, "scratch")
 WORDS = ["abc", "héllo", "", "x", "a b", "𝄞z", "Incan", "ab"]
 
 
+BIG_INTS = [2 ** 53, 2 ** 53 + 1, 2 ** 53 + 2, 2 ** 62, 2 ** 62 + 1, 2 ** 63 - 2, 2 ** 63 - 1]
+
+
 class G:
     def __init__(self, r, consts):
         self.r = r
@@ -52,7 +55,15 @@ class G:
         x = self.ref("int")
         if x is not None:
             return x
-        return ("int", self.r.choice([0, 1, 2, 3, 4, 7, 9]))
+        k = self.r.random()
+        if k < 0.55:
+            return ("int", self.r.choice([0, 1, 2, 3, 4, 6, 7, 9]))
+        if k < 0.85:
+            # negative operands: the sign rules of // and % only show with them (and with divisors that divide exactly)
+            return ("neg", ("int", self.r.choice([1, 2, 3, 4, 6, 7])))
+        if k < 0.93:
+            return ("int", self.r.choice([12, 24, 36, 100, 255, 1000]))
+        return ("int", self.r.choice(BIG_INTS))
 
     def term_int(self, d):
         if self.r.random() < 0.6 or d >= 2:
@@ -86,8 +97,12 @@ class G:
         if x is not None:
             return x
         k = r.random()
-        if k < 0.15:
+        if k < 0.1:
             return ("bool", r.random() < 0.5)
+        if k < 0.2:
+            # neighbouring ints beyond 2^53: a comparison routed through floating point cannot tell them apart
+            b = r.choice(BIG_INTS)
+            return ("cmp", r.choice(["==", "!=", "<", "<=", ">", ">="]), ("int", b), ("int", b + r.choice([-1, 0, 1]) if b < 2 ** 63 - 1 else b - r.choice([0, 1])))
         if k < 0.5:
             return ("cmp", r.choice(["==", "!=", "<", "<=", ">", ">="]), self.term_int(1), self.term_int(1))
         if k < 0.6:
